@@ -389,6 +389,9 @@ def run(check: Check) -> None:
     from .common import numpy_pitfalls
 
     numpy_pitfalls(check, "V10")
+    from .common import scalar_is_base_array
+
+    scalar_is_base_array(check)  # the coercion every kernel starts with yields plain arrays
     from .common import who_may_write
 
     who_may_write(check, "V3", "_value", {"Variable.value.setter"}, "a batch and its rows must be range-locked by the same code")
